@@ -902,6 +902,33 @@ def tconv_rows():
     return R
 
 
+def tconv_rows_thorough(seed):
+    """the quick rows plus seeded random values around every boundary and across every range"""
+    import random
+    rng = random.Random(seed)
+    U64, I64, NPS, DT = 18446744073709551615, 9223372036854775807, 1000000000, 8210266876799
+    R = tconv_rows()
+    add = lambda k, a, b=0: R.append({"kind": k, "a": str(a), "b": str(b)})
+    near = lambda c, lo, hi: min(max(c + rng.randint(-10 ** rng.randint(0, 7), 10 ** rng.randint(0, 7)), lo), hi)
+    for _ in range(60):
+        add("dur_from_millis", near(rng.choice([U64 // 1000000, U64, 2 ** 63, 0]), 0, U64))
+        add("dur_from_secs", near(rng.choice([U64 // NPS, U64, 2 ** 63, 0]), 0, U64))
+        add("std_to_wire_dur", near(rng.choice([U64 // NPS, 2 * (U64 // NPS), U64, 0]), 0, U64), rng.choice([0, NPS - 1, U64 % NPS, U64 % NPS + 1, rng.randrange(NPS)]))
+        d = near(rng.choice([0, NPS, I64, U64, rng.randrange(U64)]), 0, U64)
+        add("wire_to_std_dur", d)
+        add("wire_to_delta", d)
+        add("delta_to_wire_dur", near(rng.choice([0, -1, I64 // NPS, U64 // NPS, -(I64 // NPS)]), -9223372036854775, 9223372036854775),
+            rng.choice([0, 1, NPS - 1, I64 % NPS, I64 % NPS + 1, U64 % NPS, U64 % NPS + 1, rng.randrange(NPS)]))
+        sc, n = near(rng.choice([0, I64, U64, DT]), 0, U64), rng.choice([0, NPS - 1, NPS, NPS + 1, rng.randrange(2 ** 32)])
+        add("instant_new", sc, n)
+        add("wire_instant_deser", sc, n)
+        add("instant_to_datetime", sc, min(n, 2 ** 32 - 1))
+        add("instant_to_systime", sc, min(n, 2 ** 32 - 1))
+        add("systime_to_instant", near(rng.choice([0, I64, 2 ** 40]), 0, I64), rng.randrange(NPS))
+        add("datetime_to_instant", near(rng.choice([0, -1, DT, -DT, 59, 1483228799]), -DT, DT), rng.choice([0, NPS - 1, rng.randrange(NPS), NPS, 2 * NPS - 1]))
+    return R
+
+
 def c19(run):
     """TimeConv.tla (exact integer arithmetic, Apalache): the round trips hold for every value; rows recorded from
     the real conversions at and around every boundary are validated against it"""
@@ -933,7 +960,7 @@ def c19(run):
         raise lib.ToolError("TimeConv.tla does not satisfy its own round-trip theorems")
     run.stages.append({"stage": "Ind_TimeConv[RoundTrips, every value]", "kind": "apalache-symbolic", "outcome": "NoError",
                        "wall_s": round(lib.time.time() - t0, 1)})
-    rows = tconv_rows()
+    rows = tconv_rows() if run.quick else tconv_rows_thorough(run.seed)
     rp, op = run.path("rows.ndjson"), run.path("rows.out")
     with open(rp, "w") as f:
         for r in rows:
@@ -946,30 +973,44 @@ def c19(run):
     if len(got) < len(rows) * 0.8:
         raise lib.ToolError(f"only {len(got)} of {len(rows)} rows could be set up")
 
-    def check(sub):
+    def check(sub, inv="AllConform"):
         recs = ",\n  ".join('[kind |-> "%s", a |-> %s, b |-> %s, ok |-> %s, x |-> %s, y |-> %s]'
                             % (g["kind"], g["a"], g["b"], "TRUE" if g["res"] == "ok" else "FALSE", g["x"], g["y"]) for g in sub)
         with open(os.path.join(d, "Ind_TimeRows.tla"), "w") as f:
             f.write("---- MODULE Ind_TimeRows ----\nEXTENDS TimeConv, Sequences\nVARIABLE\n  \\* @type: Int;\n  dummy\n"
                     "Init == dummy = 0\nNext == UNCHANGED dummy\n"
                     "\\* @type: Seq({ kind: Str, a: Int, b: Int, ok: Bool, x: Int, y: Int });\nRows == <<\n  " + recs + " >>\n"
-                    "AllConform == \\A i \\in DOMAIN Rows : Conforms(Rows[i])\n====\n")
-        return apalache("Ind_TimeRows.tla", "AllConform")
+                    "AllConform == \\A i \\in DOMAIN Rows : Conforms(Rows[i])\n"
+                    "AllDeviate == \\A i \\in DOMAIN Rows : ~Conforms(Rows[i])\n====\n")
+        return apalache("Ind_TimeRows.tla", inv)
 
-    # all rows at once; if that fails, kind by kind; inside a failing kind, row by row
-    bad = []
-    if not check(got):
-        for k in sorted({g["kind"] for g in got}):
-            sub = [g for g in got if g["kind"] == k]
-            if not check(sub):
-                bad += [g for g in sub if not check([g])]
-    known = {(f["id"], k) for f in lib.kf_for(run.prop) for k in f.get("rows", [])}
+    def nonconforming(sub):
+        # all rows at once; if that fails, kind by kind; inside a failing kind, row by row
+        if not sub or check(sub):
+            return []
+        out = []
+        for k in sorted({g["kind"] for g in sub}):
+            part = [g for g in sub if g["kind"] == k]
+            if not check(part):
+                out += [g for g in part if not check([g])]
+        return out
+
+    def covered(g):
+        for f in lib.kf_for(run.prop):
+            for rule in f.get("row_rules", []):
+                if g["kind"] == rule["kind"] and int(g["b"]) >= rule.get("b_min", 0):
+                    return f
+        return None
+    # rows a recorded finding covers: they either all conform (the finding has been repaired: nothing to say) or
+    # all deviate (the finding is exercised: one KNOWN-FINDING line); a mixture is sorted out row by row
+    kfrows = [g for g in got if covered(g)]
+    rest = [g for g in got if not covered(g)]
+    bad = nonconforming(rest)
+    if kfrows and not check(kfrows):
+        dev = kfrows if check(kfrows, "AllDeviate") else [g for g in kfrows if not check([g])]
+        for g in dev:
+            run.known(covered(g))
     for g in bad:
-        sig = f'{g["kind"]}({g["a"]},{g["b"]})'
-        kf = next((f for f in lib.kf_for(run.prop) if sig in f.get("rows", [])), None)
-        if kf:
-            run.known(kf)
-            continue
         run.violations += 1
         p = os.path.join(lib.WORK, "replay", f"{run.prop}-{run.violations}.json")
         with open(p, "w") as f:
